@@ -32,6 +32,13 @@ def plan(seed, subbatch):
         if cfg.random() < 0.5:
             spec["common"]["timeframe_fill"] = True
     n = planlib.pick_n(cfg, (1, 12), (5, 60), (20, 250))
+    long_history = cfg.random() < (0.04 if planlib.thorough() else 0.012)
+    if long_history:
+        # a rare long history (more than a thousand candles) on the base timeframe
+        n = cfg.randint(1000, 1500)
+        spec["common"].pop("timeframe", None)
+        spec["common"].pop("timeframe_fill", None)
+        tf, tf_s = None, None
     if subbatch == "calm":
         faults, burst, p_empty = {}, None, (0.05 if cfg.random() < 0.3 else 0.0)
     else:
@@ -44,8 +51,13 @@ def plan(seed, subbatch):
         seed, subbatch, n, base_s, start, faults, burst, p_empty,
         max_span_s=(800 * tf_s if tf else None), regimes=regimes, regime_len=(1, 15))
     every = 1 if len(ops) <= 12 else cfg.choice((5, 10))
+    if long_history:
+        every = 10 ** 9
+        fired["long_history_runs"] += 1
     out = [{"op": "new", "preload": pre, "calculate": cfg.random() < 0.5}]
     for i, op in enumerate(ops):
+        if op["op"] == "append" and len(op["candles"]) == 1 and cfg.random() < 0.3:
+            op["bare"] = True
         out.append(op)
         if (i + 1) % every == 0:
             out.append({"op": "check"})
@@ -93,7 +105,10 @@ def execute(trace, ctx=None):
                         continue
                     n_appends += 1 if rows else 0
                     delivered.extend(rows)
-                    run.call(filled_size(delivered, tfs) * 2, subject.append, mk_candles(rows))
+                    payload = mk_candles(rows)
+                    if len(rows) == 1 and op.get("bare"):
+                        payload = payload[0]   # a single candle handed over as a bare Candle object
+                    run.call(filled_size(delivered, tfs) * 2, subject.append, payload)
                     calculated = True
                 elif kind == "check":
                     if not calculated:
